@@ -217,6 +217,50 @@ def _check_composite_blank(prog: Program, res: Result, rule: str) -> None:
                         stands[t.attr] |= {x.id for x in ast.walk(s.value) if isinstance(x, ast.Name)}
         mentioned = {x.id for x in ast.walk(v) if isinstance(x, ast.Name)} | {x.attr for x in ast.walk(v) if isinstance(x, ast.Attribute)}
         missing = sorted(a for a in rendered if not (stands[a] & mentioned))
+        # beyond being mentioned: the flag, read as a boolean function of its children's flags, must be False whenever one rendered
+        # child is present and not blank (all others present and blank)
+        if not missing:
+            def _attr_of(e: ast.AST) -> str | None:
+                if is_self_attr(e) and e.attr in rendered:  # type: ignore[union-attr]
+                    return e.attr  # type: ignore[union-attr]
+                if isinstance(e, ast.Name):
+                    hits = [a for a in rendered if e.id in stands[a]]
+                    return hits[0] if len(hits) == 1 else None
+                return None
+
+            def _bev(e: ast.AST, nonblank: str):  # noqa: ANN202
+                if isinstance(e, ast.Constant) and isinstance(e.value, bool):
+                    return e.value
+                if isinstance(e, ast.Attribute) and e.attr == "blank":
+                    a = _attr_of(e.value)
+                    return None if a is None else (a != nonblank)
+                if isinstance(e, ast.Call) and isinstance(e.func, ast.Name) and e.func.id == "all" and len(e.args) == 1 and isinstance(e.args[0], (ast.GeneratorExp, ast.ListComp)):
+                    g = e.args[0]
+                    if isinstance(g.elt, ast.Attribute) and g.elt.attr == "blank" and len(g.generators) == 1:
+                        a = _attr_of(g.generators[0].iter)
+                        return None if a is None else (a != nonblank)
+                    return None
+                if _attr_of(e) is not None:
+                    return True  # presence test of a child that is present
+                if isinstance(e, ast.Compare) and len(e.ops) == 1 and isinstance(e.comparators[0], ast.Constant) and e.comparators[0].value is None and _attr_of(e.left) is not None:
+                    return isinstance(e.ops[0], (ast.IsNot, ast.NotEq))
+                if isinstance(e, ast.UnaryOp) and isinstance(e.op, ast.Not):
+                    x = _bev(e.operand, nonblank)
+                    return None if x is None else (not x)
+                if isinstance(e, ast.BoolOp):
+                    xs = [_bev(x, nonblank) for x in e.values]
+                    if any(x is None for x in xs):
+                        return None
+                    return all(xs) if isinstance(e.op, ast.And) else any(xs)
+                if isinstance(e, ast.IfExp):
+                    t = _bev(e.test, nonblank)
+                    return None if t is None else _bev(e.body if t else e.orelse, nonblank)
+                return None
+
+            wrong = sorted(a for a in rendered if _bev(v, a) is True)
+            if wrong:
+                res.fail(rule, file=ci.file, line=asg[-1].lineno, qualname=f"{ci.name}.__init__", construct=f"{ci.name}.blank stays true although self.{wrong[0]} is not blank", message=f"`self.blank = {norm(v, 70)}` evaluates to True when self.{wrong[0]} holds output and the node's other children are blank: an enclosing block then counts as blank and suppresses the text/output of self.{wrong[0]}", what=f"{ci.name}.blank accounts for every child it renders ({', '.join(sorted(rendered))})")
+                continue
         site = f"{ci.file}:{asg[-1].lineno} {ci.name}.__init__"
         what = f"{ci.name}.blank accounts for every child it renders ({', '.join(sorted(rendered))})"
         if not missing:
